@@ -171,3 +171,19 @@ Example dfc_repack_after_leaf_writeback :
           [Ev 11 [VProd [VAtom (AIn 0 [0]); VAtom (AIn 0 [1])]]; Ev 12 []; Ev 12 [];
            Ev 10 [VAtom (AOut 2 0 []); VAtom (AOut 1 0 [])]]).
 Proof. vm_compute. reflexivity. Qed.
+
+(* Why a callee that REBINDS a borrowed parameter must be rejected (BorrowShadowedError): the
+   compiled protocol returns the callee's variable, so after `def cal(xs): xs = fresh` the
+   caller's write-back stores `fresh` at the lent place, whereas under Python's reference
+   semantics rebinding a parameter leaves the caller's object untouched (ref_exec of the empty
+   list of in-place updates).  The stores differ, so no write-back protocol of this shape can be
+   right for such a callee; the statement language of writeback_semantics_partial has no
+   rebinding, and the checker's rejection of every rebinding form is checked on every run
+   (props/C07/gen_extra.py rebind_cases). *)
+Example rebind_is_observable :
+  let A := fun n => VAtom (AIn n []) in
+  let sigma := VProd [A 0; A 1] in
+  ref_exec (fun _ v => v) [[0]] [] sigma = Some sigma /\
+  writeback sigma [[0]] [A 7] = VProd [A 7; A 1] /\
+  writeback sigma [[0]] [A 7] <> sigma.
+Proof. cbv zeta. repeat split; try reflexivity. vm_compute. discriminate. Qed.
